@@ -63,7 +63,8 @@ def gen_case(rng, tier):
             # what is "being parsed" by this thread while the copy is made (copies made from a custom constructor, inside a parse loop ...):
             # the ambient per-thread defaults for new nodes must not leak into a copy
             'ambient': rng.choice(['none', 'none', 'file', 'file_unsafe']),
-            'expanded': (emit.emit(doc, style) + alias_expanded) if alias_expanded else None}
+            'expanded': (emit.emit(doc, style) + alias_expanded) if alias_expanded else None,
+            'merged': rng.random() < 0.3 and not alias_text}
 
 
 def _despecial(doc):
@@ -87,6 +88,15 @@ def parse(case):
     if len(b.stages) != 1:
         return None
     t = b.stages[0]
+    if case.get('merged'):
+        # the tree to copy is the result of a merge (explicit flags taken over from newer stages, nodes adopted by older containers ...)
+        b2 = Builder()
+        for x in case['before']:
+            b2.add_source(x, raw_yaml=True)
+        b2.add_source(case['text'], raw_yaml=True, safe=case['safe'], filename=case['filename'])
+        for x in case['after']:
+            b2.add_source(x, raw_yaml=True)
+        return b2.build()
     if case.get('api'):
         # rebuild through the Python API from the parsed tree's plain view where possible
         from awesomeyaml.nodes.dict import ConfigDict
@@ -229,7 +239,7 @@ def run(case):
         return {'status': 'skip', 'feats': ['unparsable']}
     O1 = o1[1]
     O2 = parse(case)
-    feats = ['method_' + case['method'], 'buildable' if case['buildable'] else 'static', 'safe_src' if case['safe'] else 'unsafe_src']
+    feats = ['method_' + case['method'], 'buildable' if case['buildable'] else 'static', 'safe_src' if case['safe'] else 'unsafe_src'] + (['merged_tree'] if case.get('merged') else [])
     if tv(O1) != tv(O2):
         return {'status': 'inconclusive', 'why': 'two parses of the same text differ: the round-trip oracle is unusable for this case'}
     vio = []
